@@ -65,6 +65,7 @@ func genC10(g *simrt.Tape, tier string) any {
 				call.N = 2 + g.Draw(2)
 			}
 			genCtx(g, &call)
+			call.Via = genVia(g)
 			cs.Calls = append(cs.Calls, call)
 		}
 		sc.Callers = append(sc.Callers, cs)
@@ -120,6 +121,13 @@ func c10SweepFloor(tier string) []*ClientSc {
 		}}
 	}
 	out := []*ClientSc{mk(2, []ReqBehav{{}}), mk(5, []ReqBehav{{Yields: 2}})}
+	// the same two-caller workload through the other public entry points
+	for _, via := range []string{"roundtrip", "exec"} {
+		out = append(out, &ClientSc{Prop: "C10", Enforce: true, Behav: []ReqBehav{{Yields: 2}}, FinalClose: true, Callers: []CallerSc{
+			{Calls: []CallSc{{Kind: "request", Via: via}, {Kind: "request", Via: via}}},
+			{Calls: []CallSc{{Kind: "request", Via: via}, {Kind: "request"}}},
+		}})
+	}
 	if tier == "thorough" {
 		for cy := 0; cy < 12; cy++ {
 			out = append(out, mk(cy, []ReqBehav{{Yields: cy % 4}}), mk(cy, []ReqBehav{{DelayMs: 5}, {}}))
